@@ -49,6 +49,12 @@ pub fn build_core(sc: &Value) -> Box<Core> {
   core
 }
 
+pub fn hash_bytes(parts: &[&[u8]]) -> String {
+  let mut h: u64 = 0xcbf29ce484222325;
+  for p in parts { for x in p.iter() { h = (h ^ (*x as u64)).wrapping_mul(0x100000001b3); } }
+  format!("{:016x}", h)
+}
+
 pub fn lcd_q(core: &Core) -> u64 {
   let (line, mode, dots) = core.memory.io.video.verif_position();
   let x = match mode { 2 => dots, 3 => 80 + dots, 0 => 268 + dots, _ => dots };
@@ -125,7 +131,9 @@ pub fn run_scenario(sc: &Value, out: &mut Vec<u8>, cap: &mut Capture, cold_cache
     }
     let wr: Vec<Value> = writes_only(&log).iter().map(|w| json!([w.0, w.1])).collect();
     let cpu = unsafe { if crate::mem::verif::CPU[0] == u64::MAX { 0 } else { crate::mem::verif::CPU[0] } };
-    writeln!(out, "{}", json!({"ev": "step", "k": kind, "o": project(&mut core), "wr": wr, "out": serial,
+    let hashes = if sc["hash"].as_bool().unwrap_or(false) { json!({"fb": hash_bytes(&[&core.get_screen_buffer()[..]]),
+      "mem": hash_bytes(&[&core.memory.video_ram[..], &core.memory.cart_ram[..], &core.memory.work_ram[..], &core.memory.oam_ram[..], &core.memory.high_ram[..]])}) } else { json!(0) };
+    writeln!(out, "{}", json!({"ev": "step", "k": kind, "o": project(&mut core), "wr": wr, "out": serial, "h": hashes,
       "clk": [c1[0] - c0[0], c1[1] - c0[1], c1[2] - c0[2]], "cpu": cpu, "pc0": pc0, "rb0": rb0, "cold": cold_cache})).unwrap();
   }
   // stepping to the next frame (C09): elapsed device clocks, largest single step, LCD position
@@ -181,13 +189,16 @@ pub fn cache_pressure(args: &[String]) {
     // MBC3 with 128 banks; bank b (1..banks) holds a chain of JPs from 0x4000 upwards, the last one
     // jumps to a trampoline in bank 0 that maps bank b + 1 and jumps to 0x4000
     let mut core = new_core(0x11, 128, 0);
-    let per_bank = 5450usize;
+    // every block: LD A,(HL) ; JP next  (4 source bytes, a memory-read call in the translation)
+    let per_bank = 4000usize;
+    core.registers.hl = 0xc000;
     for b in 1..=banks {
       let base = b * 0x4000;
       for i in 0..per_bank {
-        let a = 0x4000 + 3 * i;
-        let next = if i + 1 < per_bank { a + 3 } else { 0x0200 + 16 * b };
-        core.memory.rom[base + 3 * i] = 0xc3; core.memory.rom[base + 3 * i + 1] = next as u8; core.memory.rom[base + 3 * i + 2] = (next >> 8) as u8;
+        let a = 0x4000 + 4 * i;
+        let next = if i + 1 < per_bank { a + 4 } else { 0x0200 + 16 * b };
+        core.memory.rom[base + 4 * i] = 0x7e;
+        core.memory.rom[base + 4 * i + 1] = 0xc3; core.memory.rom[base + 4 * i + 2] = next as u8; core.memory.rom[base + 4 * i + 3] = (next >> 8) as u8;
       }
       let t = 0x0200 + 16 * b;
       let nb = if b < banks { b + 1 } else { 1 };
